@@ -19,6 +19,9 @@ CLAIMS = {
  "C07": dict(cat="model_checking", ref="3 (C07)", technique="TLA+ navigation state machine ListingNav.tla; TLC enumerates all behaviours up to a length bound (and simulates long ones) with the specified index/return flag; each behaviour replayed on real and truncated listing files and compared with a freshly opened reader",
    text="TLC checks range, next/prev bounds and nearest-selection on the navigation model and exports every behaviour; the harness replays them on every shipped listing with two or more result sets and on copies truncated to N=1..4 result sets, comparing index, moved-flag, time/step and all table contents with a fresh reader after every action. Right level: history independence of a small cursor state machine.",
    note="Fresh reader positioned with index=i is the contents oracle (C05 checks that oracle against the file); time budget per file limits how many of the exported behaviours are replayed (count in evidence)."),
+ "C06": dict(cat="model_checking", ref="3 (C06)", technique="TLA+ token-level model ListingScan.tla of the three skip_to_table/next_table procedures (one step per loop iteration) model-checked by TLC for every table configuration occurring in the shipped files; TLC-enumerated selections replayed through history() with recorded scanner landings and compared with stepping",
+   text="TLC checks, for the exact table configuration of every shipped file and flavour, that the search for each selected table terminates (safety form and liveness under weak fairness) and lands on the wanted table of the current result set, and that the pinned TOUGH+ logic does not (negative configuration). Every ordered sub-selection TLC enumerates is run through the real history() under a watchdog; the recorded landing of every skip_to_table call, the series (vs. stepping with a second reader), the times, the sign of reversed connections and the reader state afterwards are checked.",
+   note="Stepping with a second reader is the value oracle; short-output values at short result sets are not compared; time budget per file limits the selections replayed (count in evidence)."),
 }
 REASONS_PENDING = "check not built yet in this revision (see DESIGN.md section 6 build order); the specification family applies"
 NA = {
